@@ -132,6 +132,17 @@ def static_inventory(repo=REPO):
             for func in [n for n in cls.body if isinstance(n, ast.FunctionDef) and n.name != '__init__' and not n.name.startswith('_add')]:
                 for n in ast.walk(func):
                     attr = None
+                    if isinstance(n, ast.Delete):
+                        for t in n.targets:
+                            base = t
+                            while isinstance(base, ast.Subscript):
+                                base = base.value
+                            if isinstance(base, ast.Attribute) and isinstance(base.value, ast.Name) and base.value.id == 'self':
+                                inv['instance_state'].setdefault(f'{mod}:{cls.name}.{base.attr}', set()).add(func.name + ':del')
+                    if isinstance(n, ast.Call) and isinstance(n.func, ast.Attribute) and n.func.attr in ('pop', 'popitem', 'clear', 'remove', 'discard'):
+                        base = n.func.value
+                        if isinstance(base, ast.Attribute) and isinstance(base.value, ast.Name) and base.value.id == 'self':
+                            inv['instance_state'].setdefault(f'{mod}:{cls.name}.{base.attr}', set()).add(func.name + ':del')
                     if isinstance(n, (ast.Assign, ast.AugAssign)):
                         tg = n.targets if isinstance(n, ast.Assign) else [n.target]
                         for t in tg:
@@ -146,6 +157,16 @@ def static_inventory(repo=REPO):
                             attr = base.attr
                     if attr:
                         inv['instance_state'].setdefault(f'{mod}:{cls.name}.{attr}', set()).add(func.name)
+    # lines at which a method mentions (reads or writes) an instance attribute that some method writes: the preemption search arms there
+    for mod, tree in trees.items():
+        for cls in [n for n in tree.body if isinstance(n, ast.ClassDef)]:
+            attrs = {k.split('.')[-1] for k in inv['instance_state'] if k.startswith(f'{mod}:{cls.name}.')}
+            if not attrs:
+                continue
+            for func in [n for n in cls.body if isinstance(n, ast.FunctionDef) and n.name != '__init__']:
+                for n in ast.walk(func):
+                    if isinstance(n, ast.Attribute) and isinstance(n.value, ast.Name) and n.value.id == 'self' and n.attr in attrs:
+                        inv['_lines'].setdefault(f'{mod.split(".")[-1]}.{func.name}', set()).add(n.lineno)
     for mod, ms in owned.items():
         for m, kind in ms.items():
             if m == '__all__':
@@ -206,12 +227,26 @@ class LogList(list):
         self._log.append((self._name, 'set', i, canon(v))); super().__setitem__(i, v)
     def append(self, v):
         self._log.append((self._name, 'append', len(self), canon(v))); super().append(v)
+    def __delitem__(self, i):
+        self._log.append((self._name, 'remove', i, None)); super().__delitem__(i)
+    def pop(self, *a):
+        self._log.append((self._name, 'remove', a[0] if a else -1, None)); return super().pop(*a)
+    def clear(self):
+        self._log.append((self._name, 'remove', 'all', None)); super().clear()
 
 class LogDict(dict):
     def __init__(self, log, name):
         super().__init__(); self._log = log; self._name = name
     def __setitem__(self, k, v):
         self._log.append((self._name, 'set', canon(k), canon(v))); super().__setitem__(k, v)
+    def __delitem__(self, k):
+        self._log.append((self._name, 'remove', canon(k), None)); super().__delitem__(k)
+    def pop(self, *a):
+        self._log.append((self._name, 'remove', canon(a[0]) if a else None, None)); return super().pop(*a)
+    def popitem(self):
+        self._log.append((self._name, 'remove', 'item', None)); return super().popitem()
+    def clear(self):
+        self._log.append((self._name, 'remove', 'all', None)); super().clear()
 
 def api_calls(rng, n, a5=None):
     """a sample of (name, args) API calls over all public functions, all faces, polar/antimeridian points, all resolutions"""
@@ -247,6 +282,17 @@ def api_calls(rng, n, a5=None):
             calls.append(('get_resolution', (random_valid_id(rng, 0, 29),)))
         else:
             calls.append(('cell_area', (rng.randint(0, 29),)))
+    return calls
+
+def global_workload(rng, n):
+    """boundary / centre calls spread over all twelve faces and all five quintants (touches most of the 240 triangle combinations)"""
+    from refids import ref_id
+    calls = []
+    for i in range(n):
+        t = (7 * i + rng.randrange(60)) % 60
+        r = rng.choice([2, 3, 5, 9])
+        c = ref_id(t, rng.randrange(4 ** (r - 1)), r)
+        calls.append(('cell_to_boundary', (c, {'segments': 1})) if i % 2 else ('cell_to_lonlat', (c,)))
     return calls
 
 def call(a5, name, args):
@@ -307,7 +353,7 @@ def runtime_discipline(rng, ncalls):
     snap0 = table_snapshot(mods)
     problems = []
     slots = {}
-    calls = api_calls(rng, ncalls)
+    calls = api_calls(rng, ncalls) + global_workload(rng, 60)
     nwrites = 0
     ref_dod = mods['a5.projections.dodecahedron'].DodecahedronProjection
     for name, args in calls:
@@ -319,7 +365,14 @@ def runtime_discipline(rng, ncalls):
             continue
         if args != before:
             problems.append(f'{name} modified its arguments {before!r}')
+    removed = set()
     for (cname, op, key, val) in log:
+        if op == 'remove':
+            # the protocol proved in Lean only ever fills slots (Effects: lookup / fill); an entry that disappears is outside it
+            if cname not in removed:
+                problems.append(f'{cname}: an entry is removed ({key!r}); the proved cache protocol only fills slots, it never evicts')
+                removed.add(cname)
+            continue
         if op == 'append':
             if val is not None:
                 problems.append(f'{cname}: append of a non-placeholder value')
@@ -371,7 +424,7 @@ def hot_functions(cur=None, ref=None):
             if 'Shape' in k:
                 continue
             for fn in set(fns) - set(ref.get('instance_state', {}).get(k, [])):
-                hot.add(k.split(':')[0].split('.')[-1] + '.' + fn)
+                hot.add(k.split(':')[0].split('.')[-1] + '.' + fn.split(':')[0])
     return hot
 
 def hot_lines(cur, hot):
@@ -518,7 +571,7 @@ def cold_reset(mods):
     cellmod = mods['a5.core.cell']
     cellmod._dodecahedron = type(cellmod._dodecahedron)()
 
-def preemption_search(rng, pairs, max_points, a5=None, hot=None, only_hot=False, stop_after=None, warm=False):
+def preemption_search(rng, pairs, max_points, a5=None, hot=None, only_hot=False, stop_after=None, warm=False, busy=None):
     """for API calls A and B: run A under sys.settrace; at the k-th line event inside the library run B to completion
     (a context switch at that line boundary), then let A finish; A's result must equal its undisturbed result.
     Every k up to max_points per pair (systematic, context bound 2)."""
@@ -572,6 +625,12 @@ def preemption_search(rng, pairs, max_points, a5=None, hot=None, only_hot=False,
                     f = f.f_back; depth += 1
             return counter
         cold_reset(mods)
+        for wc in (busy or []):
+            # a process that has already worked all over the globe (bounded caches are full, every lazily built table exists)
+            try:
+                call(a5, *wc)
+            except Exception:
+                pass
         if warm:
             # the caller has just made the same call (batches of nearby points): whatever A leaves behind is in place when A runs again
             try:
@@ -612,6 +671,11 @@ def preemption_search(rng, pairs, max_points, a5=None, hot=None, only_hot=False,
                         sys.settrace(tracer)
                 return tracer
             cold_reset(mods)
+            for wc in (busy or []):
+                try:
+                    call(a5, *wc)
+                except Exception:
+                    pass
             if warm:
                 try:
                     call(a5, *A)
@@ -627,9 +691,9 @@ def preemption_search(rng, pairs, max_points, a5=None, hot=None, only_hot=False,
                 sys.settrace(None)
             stats['preemption_points'] += 1
             if errA or resA != refA or state['berr'] or (state['bres'] is not None and state['bres'] != refB):
-                what = (('after the same call was made once, ' if warm else '') + f'{A[0]}{A[1]!r} interrupted at its line event {k}/{total} by {B[0]}{B[1]!r}: '
+                what = ((f'after a workload of {len(busy)} calls over all faces, ' if busy else '') + ('after the same call was made once, ' if warm else '') + f'{A[0]}{A[1]!r} interrupted at its line event {k}/{total} by {B[0]}{B[1]!r}: '
                         + (f'raises {errA}' if errA else ('returns a different value' if resA != refA else f'the interrupting call {"raises " + state["berr"] if state["berr"] else "returns a different value"}')))
-                fails.append({'what': what, 'A': A, 'B': B, 'k': k, 'warm': warm})
+                fails.append({'what': what, 'A': A, 'B': B, 'k': k, 'warm': warm, 'busy': [list(c) for c in (busy or [])]})
                 break
         if stop_after and len(fails) >= stop_after:
             break
@@ -699,6 +763,30 @@ def history_search(rng, nhist, hist_len):
                         fails.append({'what': f'{name}{args!r} returns a different value after a history of {idx} calls than on a fresh import (warm {str(rw)[:80]}, cold {str(rc)[:80]})', 'history': hist[:idx + 1]})
                         break
                     transient.append(f'{name}{args!r} after {idx} calls: warm {str(rw)[:120]} cold {str(rc)[:120]} — not reproduced by replaying the same history')
+        # the very first answer of an interpreter is modified by the caller, then the call is repeated (a first call may hand out the
+        # object it has just stored); list-returning calls on coarse and fine cells with every option spelling
+        from refids import random_valid_id as _rv
+        firsts = [c for c in hist if c[0] in ('cell_to_boundary', 'cell_to_children', 'compact', 'uncompact')][:6]
+        for _k in range(6):
+            c0 = _rv(rng, 0, 1) if _k < 4 else _rv(rng, 2, 29)
+            o0 = rng.choice([None, {}, {'closed_ring': False}, {'segments': 'auto'}, {'segments': None, 'closed_ring': True}, {'segments': 2}])
+            firsts.append(('cell_to_boundary', (c0,) if o0 is None else (c0, o0)))
+        firsts += [('cell_to_children', (_rv(rng, 0, 3),)), ('get_res0_cells', ())]
+        a5f, _ = fresh_a5()
+        for name, args in firsts:
+            if not hasattr(a5f, name):
+                continue
+            try:
+                args1 = copy.deepcopy(args)
+                r1 = call(a5f, name, args1); c1 = canon(r1)
+                if isinstance(r1, list) and r1:
+                    r1.pop(); r1.reverse(); r1.append(r1[0])
+                r2 = canon(call(a5f, name, copy.deepcopy(args)))
+                n += 1
+                if r2 != c1:
+                    fails.append({'what': f'modifying the list returned by the first {name}{args!r} of an interpreter changes the answer of the next identical call', 'history': [(name, args)], 'mutate_first': True}); break
+            except Exception:
+                pass
         # mutate returned containers, then repeat the calls
         for name, args in hist[:10]:
             try:
@@ -777,6 +865,14 @@ def directed_history_search(rng, nq):
         if len(fails) >= 3:
             break
     return fails, {'directed_history_calls': n, 'directed_queries': len(queries), 'warmups': len(warm)}
+
+def run_mutate_first(name, args):
+    """True iff modifying the list returned by the first call of a fresh interpreter changes the answer of the next identical call"""
+    a5f, _ = fresh_a5()
+    r1 = call(a5f, name, copy.deepcopy(tuple(args))); c1 = canon(r1)
+    if isinstance(r1, list) and r1:
+        r1.pop(); r1.reverse(); r1.append(r1[0])
+    return canon(call(a5f, name, copy.deepcopy(tuple(args)))) != c1
 
 def run_history(hist):
     """True iff the last call of the history returns something else than on a fresh import"""
